@@ -4,6 +4,7 @@
 use serde_json::{json, Value};
 
 mod c01;
+mod c06;
 mod c07;
 mod c02;
 mod c03;
@@ -43,6 +44,8 @@ fn run(name: &str, args: &Value) -> Value {
     match name {
         "c01_messages" => c01::messages(args),
         "c01_blocking_panic" => c01::blocking_panic(args),
+        "c06_history" => c06::history(args),
+        "c06_inprocess" => c06::inprocess(args),
         "c07_ws" => c07::ws(args),
         "c07_http" => c07::http(args),
         "c19_chunking" => c19::chunking(args),
